@@ -80,8 +80,17 @@ def make_ws(ctx):
     # nothing else to do here
 
 
-def run_engine(ctx, args, name="result", timeout=None):
+def run_engine(ctx, args, name="result", timeout=None, selftest=True):
     out = os.path.join(ctx.scratch, name + ".json")
+    if selftest:
+        # engine sensitivity self-test rides along with every engine run (DESIGN 1.6 iii)
+        if "-pair" in args:
+            args = ["-pair", "verifws/selftest/src=verifws/selftest/outbad"] + args
+        elif "-harness" in args:
+            args = ["-harness", "verifws/selftest/h"] + args
+            if "-drivers" in args:
+                i = args.index("-drivers")
+                args[i + 1] = "(%s)|^Drive_SelfTest" % args[i + 1]
     cmd = [build_engine(), "check", "-ws", ctx.ws, "-out", out, "-j", str(NCPU)] + args
     p = subprocess.run(cmd, env=GOENV, stdout=subprocess.PIPE, stderr=subprocess.STDOUT, text=True, timeout=timeout)
     if not os.path.exists(out):
@@ -91,6 +100,16 @@ def run_engine(ctx, args, name="result", timeout=None):
     res["_stderr"] = p.stdout[-2000:]
     if p.returncode != 0:
         raise CheckError("engine failed:\n" + p.stdout[-4000:])
+    if selftest:
+        st = [d for d in res["drivers"] if "SelfTest" in d["name"]]
+        res["drivers"] = [d for d in res["drivers"] if "SelfTest" not in d["name"]]
+        bad = [d for d in st if d["name"].endswith("Drive_SelfTestBad")]
+        vac = [d for d in st if d["name"].endswith("Drive_SelfTestVacuous")]
+        if not bad or any(d["status"] != "violated" for d in bad):
+            raise CheckError("engine self-validation failed: the seeded wrong program was not reported as violated: %s" % [(d["name"], d["status"]) for d in st])
+        if any(d["status"] != "undecided" for d in vac):
+            raise CheckError("engine self-validation failed: the vacuous driver was not reported as undecided")
+        res["selftest"] = [(d["name"], d["status"]) for d in st]
     return res
 
 
